@@ -398,14 +398,25 @@ class AWSGlueExecutor(Executor):
             while self.is_running and self.pending_glue_jobs:
                 fail_counter = 0
                 while fail_counter < 5 and self.pending_glue_jobs:
-                    job = self.pending_glue_jobs.popleft()
-                    job_id = self.submit_pending_job(job)
+                    # Keep the job at the head of the pending queue while the Glue API call
+                    # is in flight (only this thread removes from the left; `submit()` appends
+                    # on the right). The job must always be in `pending_glue_jobs` or
+                    # `running_glue_jobs`, otherwise the monitor thread may see both empty
+                    # and exit, and the Glue run would never be polled.
+                    job = self.pending_glue_jobs[0]
+                    try:
+                        job_id = self.submit_pending_job(job)
+                    except Exception:
+                        self.pending_glue_jobs.popleft()
+                        raise
 
                     if job_id is None:
                         fail_counter += 1
-                        self.pending_glue_jobs.append(job)
+                        # Move job to the back of the queue (atomic).
+                        self.pending_glue_jobs.rotate(-1)
                     else:
                         self.running_glue_jobs[job_id] = job
+                        self.pending_glue_jobs.popleft()
                         fail_counter = 0
 
                 time.sleep(self.retry_interval)
